@@ -511,6 +511,9 @@ def floordiv(x, y, out=None, out_like=None, sizing='optimal', method='raw', **kw
     n_word = int(signed) + n_int + n_frac
     optimal_size = (signed, n_word, n_int, n_frac)
 
+    if method == 'repr' and max(x.n_word, y.n_word) > 53 and x.vdtype != complex and y.vdtype != complex:
+        # the float value of an operand of more than 53 bits is rounded; the integer-code method is exact (and the two must agree)
+        method = 'raw'
     return _function_over_two_vars(repr_func=_floordiv_repr, raw_func=_floordiv_raw, x=x, y=y, out=out, out_like=out_like, sizing=sizing, method=method, optimal_size=optimal_size, **kwargs)
 
 @implements(np.true_divide, np.divide)
@@ -576,6 +579,9 @@ def mod(x, y, out=None, out_like=None, sizing='optimal', method='raw', **kwargs)
     n_word = int(signed) + n_int + n_frac
     optimal_size = (signed, n_word, n_int, n_frac)
 
+    if method == 'repr' and max(x.n_word, y.n_word) > 53 and x.vdtype != complex and y.vdtype != complex:
+        # (see floordiv: the float value of an operand of more than 53 bits is rounded)
+        method = 'raw'
     return _function_over_two_vars(repr_func=_mod_repr, raw_func=_mod_raw, x=x, y=y, out=out, out_like=out_like, sizing=sizing, method=method, optimal_size=optimal_size, **kwargs)
 
 @implements(np.power)
